@@ -204,6 +204,34 @@ def run(chk):
                 chk.ob('R17.4', inst + f': slot {slot} holds a Kepler-consistent (a, n, P) with the given value, all other slots untouched', ok and given_ok and not touched,
                        why + ('' if given_ok else f' given value not stored in slot {slot};') + (f' other slots modified: {touched}' if touched else ''), mo.where(ms[meth]),
                        key=f'R17.4|{inst}', method='interpreted mutator (real world_signature_to_index) + GF(p^2) PIT')
+    # "... for the current masses": a world's mass changes (set_geometry / reinit) and the orbit is given the same value again -- the very same object, as a driver
+    # re-sending its state does.  The stored triple must follow the new mass.
+    for meth, kw in cases:
+        which = list(kw)[0] if kw else meth[4:]
+        if which == 'eccentricity':
+            continue
+        for who, slot, sig_mk in (('the moon', 2, lambda w: 2), ('the host', 2, lambda w: w[2])):
+            o, worlds = fresh()
+            sig = sig_mk(worlds)
+
+            def send():
+                if meth == 'set_state':
+                    it2.call(mo, ms[meth], [sig], {which: val, 'set_stellar_orbit': False}, self_obj=o)
+                else:
+                    it2.call(mo, ms[meth], [sig, val], {'set_stellar_orbit': False}, self_obj=o)
+            send()
+            new_mass = X.atom('mass_after_change', 'pos')
+            tgt = worlds[2] if who == 'the moon' else worlds[0]
+            tgt.attrs['mass'] = new_mass
+            send()
+            a_ = o.attrs['_semi_major_axes'][slot]; n_ = o.attrs['_orbital_frequencies'][slot]; P_ = o.attrs['_orbital_periods'][slot]
+            host_m = new_mass if who == 'the host' else Mh
+            world_m = new_mass if who == 'the moon' else masses[slot]
+            ok = all(isinstance(v, X.Node) for v in (a_, n_, P_)) and d.equal(a_ ** 3 * n_ * n_, Gc * (host_m + world_m)) and d.equal(P_ * n_ * 86400, 2 * pi)
+            inst = f'OrbitBase.{meth}({which}) ; mass of {who} changes ; the same {which} is sent again'
+            chk.ob('R17.4', inst + ': the stored (a, n, P) satisfy Kepler\'s third law for the masses as they are now', ok,
+                   'the triple still belongs to the old mass (the update was skipped because the value looked unchanged)', mo.where(ms[meth]),
+                   key=f'R17.4|{inst}', method='interpreted mutator history + GF(p^2) PIT')
     # readers and writers agree on the slot: what a setter stored for (signature, stellar flag) is what the getter of the same (signature, flag) reports,
     # and the three getters of one (signature, flag) read one and the same slot
     getters = {'get_semi_major_axis': '_semi_major_axes', 'get_orbital_frequency': '_orbital_frequencies', 'get_orbital_period': '_orbital_periods', 'get_eccentricity': '_eccentricities'}
